@@ -306,6 +306,8 @@ class OpsMixin:
                 return v.t
             if v.ival is not None:
                 return self.to_fp(v.ival)
+            if v.dec is not None:
+                raise Unsupported("floating-point arithmetic on a decimal-defined symbolic float")
             a, k = v.quot
             return z3.fpDiv(z3.RNE(), self.to_fp(a), z3.FPVal(float(k), F64))
         if isinstance(v, float):
@@ -333,7 +335,7 @@ class OpsMixin:
             b = self.int_range_bits(v)
             if b is not None:
                 return SymFloat(ival=v)
-            return SymFloat(self.to_fp(v))
+            return SymFloat(quot=(v, 1))      # float(int) is correctly rounded
         return v
 
     def float_binop(self, op, a, b):
@@ -540,6 +542,39 @@ class OpsMixin:
             return (-(2 ** (v.w - 1)), 2 ** (v.w - 1) - 1)
         return (0, 2 ** v.w - 1)
 
+    def rational(self, v):
+        """(num, den) with den a positive python int, when the float is the correctly rounded value of num/den"""
+        if isinstance(v, SymFloat):
+            if v.ival is not None:
+                return (v.ival, 1)
+            if v.quot is not None:
+                return v.quot
+            if v.dec is not None:
+                neg, digits, e10 = v.dec
+                D = 0
+                for d in digits:
+                    D = self.op("Add", self.op("Mult", D, 10), d)
+                if isinstance(neg, bool):
+                    if neg:
+                        D = self.neg(D)
+                else:
+                    D = mkint(z3.If(zbool(neg), -zint(D), zint(D)))
+                scale = e10 - (len(digits) - 1)
+                if scale >= 0:
+                    return (self.op("Mult", D, 10 ** scale), 1)
+                return (D, 10 ** (-scale))
+            return None
+        if isinstance(v, INTLIKE):
+            return (v, 1)
+        if isinstance(v, float) and v.is_integer():
+            return (int(v), 1)
+        if isinstance(v, float) and v == v and abs(v) != float("inf"):
+            from fractions import Fraction
+            # a concrete double is the exactly-rounded value of its shortest repr decimal
+            fr = Fraction(repr(v))
+            return (fr.numerator, fr.denominator)
+        return None
+
     def float_compare(self, t, a, b):
         num = (int, float, SymInt, SymBV, SymFloat, SymBool)
         if not isinstance(a, num) or not isinstance(b, num):
@@ -548,6 +583,13 @@ class OpsMixin:
             if t is ast.NotEq:
                 return True
             raise TypeError("float compare with non-number")
+        if t in (ast.Eq, ast.NotEq) and ((isinstance(a, SymFloat) and (a.quot is not None or a.dec is not None)) or
+                                         (isinstance(b, SymFloat) and (b.quot is not None or b.dec is not None))):
+            ra, rb = self.rational(a), self.rational(b)
+            if ra is not None and rb is not None:
+                # equal rationals round to equal doubles (sufficient; a counterexample must replay natively)
+                r = self.cmp("Eq", self.op("Mult", ra[0], rb[1]), self.op("Mult", rb[0], ra[1]))
+                return self.not_(r) if t is ast.NotEq else r
         ia = a.ival if isinstance(a, SymFloat) else (a if isinstance(a, INTLIKE) else None)
         ib = b.ival if isinstance(b, SymFloat) else (b if isinstance(b, INTLIKE) else None)
         if isinstance(a, float) and a.is_integer():
